@@ -70,13 +70,13 @@ package transaction
 //@ func commissionFromPool
 //@   trusted
 //@   ensures (result1 == nil) == poolOK(swapChecker, coin, commissionInBaseCoin.val)
-//@   ensures result1 == nil ==> result0 != nil && result0.val == poolQuote(swapChecker, coin, commissionInBaseCoin.val) && result0.val > 0
+//@   ensures result1 == nil ==> result0 != nil && fresh(result0) && result0.val == poolQuote(swapChecker, coin, commissionInBaseCoin.val) && result0.val > 0
 //@   ensures result1 != nil ==> result1.Code != 0
 //@   modifies nothing
 //@ func commissionFromReserve
 //@   trusted
 //@   ensures (result1 == nil) == reserveOK(gasCoin, commissionInBaseCoin.val)
-//@   ensures result1 == nil ==> result0 != nil && result0.val == reserveQuote(gasCoin, commissionInBaseCoin.val) && result0.val >= 0
+//@   ensures result1 == nil ==> result0 != nil && fresh(result0) && result0.val == reserveQuote(gasCoin, commissionInBaseCoin.val) && result0.val >= 0
 //@   ensures result1 != nil ==> result1.Code != 0
 //@   modifies nothing
 //@ func CalculateCommission
@@ -88,7 +88,7 @@ package transaction
 //@   let rq = reserveQuote(gasCoin, amt)
 //@   let custom = coinIDOf(gasCoin) != 0 && amt != 0
 //@   requires checkState != nil && checkState.state != nil && checkState.state.Coins != nil && commissionInBaseCoin != nil
-//@   ensures errResp == nil ==> commission != nil && (amt >= 0 ==> commission.val >= 0)
+//@   ensures errResp == nil ==> commission != nil && fresh(commission) && (amt >= 0 ==> commission.val >= 0)
 //@   ensures errResp != nil ==> errResp.Code != 0
 //@   ensures base: coinIDOf(gasCoin) == 0 ==> errResp == nil && commission.val == amt && !poolSwap
 //@   ensures zero: coinIDOf(gasCoin) != 0 && amt == 0 ==> errResp == nil && commission.val == 0 && !poolSwap
@@ -135,7 +135,7 @@ package transaction
 //@   requires sender: senderKnown(arg0)
 //@   requires ctx: typeis(arg1, "*state.CheckState") || typeis(arg1, "*state.State")
 //@   requires ctxcheck: typeis(arg1, "*state.CheckState") ==> as(arg1, "*state.CheckState") != nil
-//@   requires modules: st != nil && st.Accounts != nil && st.Coins != nil && st.Commission != nil && st.Accounts.bus != nil && (deliver ==> st.Coins.bus != nil)
+//@   requires modules: st != nil && st.Accounts != nil && st.Coins != nil && st.Commission != nil && st.Checks != nil && st.Accounts.bus != nil && (deliver ==> st.Coins.bus != nil)
 //@   # C27: the price handed to every Run is gas price x (type price + bytes x byte price) when the table is in the base coin
 //@   requires [C27] feeprice: tbl.Coin == 0 ==> arg4.val == arg0.GasPrice * (typePrice(recv, tbl) + (len(arg0.Payload) + len(arg0.ServiceData)) * tbl.PayloadByte.val)
 //@   requires feesign: arg4.val >= 0 && arg4 != arg2
@@ -147,7 +147,8 @@ package transaction
 //@   ensures [C04,C03] accepted: result.Code == 0 && deliver ==> nonce(accs, senderOf(arg0)) == arg0.Nonce
 //@   # C05: only the sender's own balances can go down (a check redemption also debits the check's issuer)
 //@   ensures [C05] onlysender: arg0.Type != TypeRedeemCheck ==> forall c types.CoinID, a types.Address :: a != senderOf(arg0) ==> bal(accs, c, a) >= old(bal(accs, c, a))
-//@   modifies bal, nonce, ledgerDelta, ledgerVolume, coinVolume, coinReserve, swapAbs, otherState, arg2.val, accountsCache, coinsCache, commissionCache
+//@   ensures [C03] rejectedchecks: result.Code != 0 || !deliver ==> forall h types.Hash :: (h in st.Checks.usedChecks) <==> old(h in st.Checks.usedChecks)
+//@   modifies bal, nonce, ledgerDelta, ledgerVolume, coinVolume, coinReserve, swapAbs, otherState, arg2.val, accountsCache, coinsCache, commissionCache, mapof(st.Checks.usedChecks)
 
 //@ func (*ExecutorV3).RunTx
 //@   serves C04 C03 C26 C27 C05
@@ -157,8 +158,8 @@ package transaction
 //@   let accs = typeis(context, "*state.CheckState") ? as(context, "*state.CheckState").state.Accounts : as(context, "*state.State").Accounts
 //@   requires e != nil && rewardPool != nil && currentMempool != nil
 //@   requires typeis(context, "*state.CheckState") || typeis(context, "*state.State")
-//@   requires typeis(context, "*state.CheckState") ==> as(context, "*state.CheckState") != nil && as(context, "*state.CheckState").state != nil && as(context, "*state.CheckState").state.Accounts != nil && as(context, "*state.CheckState").state.Coins != nil && as(context, "*state.CheckState").state.Commission != nil && as(context, "*state.CheckState").state.Accounts.bus != nil
-//@   requires typeis(context, "*state.State") ==> as(context, "*state.State") != nil && as(context, "*state.State").Accounts != nil && as(context, "*state.State").Coins != nil && as(context, "*state.State").Commission != nil && as(context, "*state.State").Accounts.bus != nil && as(context, "*state.State").Coins.bus != nil
+//@   requires typeis(context, "*state.CheckState") ==> as(context, "*state.CheckState") != nil && as(context, "*state.CheckState").state != nil && as(context, "*state.CheckState").state.Accounts != nil && as(context, "*state.CheckState").state.Coins != nil && as(context, "*state.CheckState").state.Commission != nil && as(context, "*state.CheckState").state.Checks != nil && as(context, "*state.CheckState").state.Accounts.bus != nil
+//@   requires typeis(context, "*state.State") ==> as(context, "*state.State") != nil && as(context, "*state.State").Accounts != nil && as(context, "*state.State").Coins != nil && as(context, "*state.State").Commission != nil && as(context, "*state.State").Checks != nil && as(context, "*state.State").Accounts.bus != nil && as(context, "*state.State").Coins.bus != nil
 //@   requires nowrap: nonce(accs, snd) < 18446744073709551615
 //@   ensures [C04] chain: result.Code == 0 ==> tx.ChainID == types.CurrentChainID
 //@   ensures [C04] inorder: result.Code == 0 ==> tx.Nonce == old(nonce(accs, snd)) + 1
@@ -490,4 +491,32 @@ package transaction
 //@   let snd = senderOf(tx)
 //@   ensures [C02] transferred: result.Code == 0 && deliver && tx.GasCoin == 0 && data.Coin != 0 && data.To != snd ==> bal(accs, data.Coin, data.To) == old(bal(accs, data.Coin, data.To)) + data.Value.val && bal(accs, data.Coin, snd) == old(bal(accs, data.Coin, snd)) - data.Value.val && bal(accs, 0, snd) == old(bal(accs, 0, snd)) - old(price.val)
 //@   loop 0 invariant grows: forall c types.CoinID, a types.Address :: bal(accs, c, a) >= old(bal(accs, c, a))
+//@   loop 0 invariant frame: nonce == old(nonce) && otherState == old(otherState) && rewardPool.val == old(rewardPool.val)
+
+//@ # C21: a check pays out at most once (per block: the used-check set; across blocks: the committed tree, not under
+//@ # contract), only before its due block and on its network, exactly its coin and value from the issuer to the redeemer
+//@ func (RedeemCheckData).basicCheck
+//@   ensures result != nil ==> result.Code != 0
+//@   ensures result == nil ==> tx.GasPrice == 1 && len(data.RawCheck) > 0
+//@   modifies nothing
+//@ func (RedeemCheckData).Run
+//@   serves C21 C03 C04 C05 C27 C02
+//@   implements iface Data.Run
+//@   assumes typed: tx.Type == TypeRedeemCheck
+//@   assumes noalias: decodedCheck(data.RawCheck) != nil ==> decodedCheck(data.RawCheck).Value != rewardPool
+//@   let chk = decodedCheck(data.RawCheck)
+//@   let issuer = issuerOf(chk)
+//@   let snd = senderOf(tx)
+//@   let used = st.Checks.usedChecks
+//@   ensures [C21] notexpired: result.Code == 0 ==> chk.DueBlock >= currentBlock
+//@   ensures [C21] network: result.Code == 0 ==> chk.ChainID == types.CurrentChainID
+//@   ensures [C21] once: result.Code == 0 ==> !old(checkHash(chk) in used)
+//@   ensures [C21] marked: result.Code == 0 && deliver ==> checkHash(chk) in used
+//@   ensures [C21] gascoin: result.Code == 0 ==> tx.GasCoin == chk.GasCoin && tx.GasPrice == 1
+//@   ensures [C21,C02] pays: result.Code == 0 && deliver && chk.Coin != chk.GasCoin && issuer != snd ==> bal(accs, chk.Coin, issuer) == old(bal(accs, chk.Coin, issuer)) - chk.Value.val && bal(accs, chk.Coin, snd) == old(bal(accs, chk.Coin, snd)) + chk.Value.val
+//@   ensures [C21,C27] issuerpaysfee: result.Code == 0 && deliver && tx.GasCoin == 0 && chk.Coin != 0 ==> bal(accs, 0, issuer) == old(bal(accs, 0, issuer)) - old(price.val)
+//@   ensures [C05] onlyissuer: forall c types.CoinID, a types.Address :: a != issuer ==> bal(accs, c, a) >= old(bal(accs, c, a))
+//@   covers delivered: result.Code == 0 && deliver && tx.GasCoin == 0 && chk.Coin != 0
+//@   loop 0 invariant grows: forall c types.CoinID, a types.Address :: bal(accs, c, a) >= old(bal(accs, c, a))
+//@   loop 0 invariant onlygas: select(bal, accs) == store(select(old(bal), accs), tx.GasCoin, select(select(bal, accs), tx.GasCoin))
 //@   loop 0 invariant frame: nonce == old(nonce) && otherState == old(otherState) && rewardPool.val == old(rewardPool.val)
